@@ -623,7 +623,7 @@ def timeOverrideCheck (new : StdKey) : A α Unit := do
   if overrides.isNone then apanic "time_override_check: index 0"
   let overridenKeys : List StdKey := if new == .time then [.prepTime, .cookTime] else [.time]
   let overriden := locs overridenKeys
-  set { s with metaLocs := s.metaLocs.filter (fun p => !overridenKeys.contains p.1) }
+  modify fun s => { s with metaLocs := s.metaLocs.filter (fun p => !overridenKeys.contains p.1) }
   if overriden.isEmpty then return
   awarn "time-overridden" (overriden ++ [overrides.getD ⟨0, 0⟩])
 
@@ -635,14 +635,14 @@ def metadataA (env : Env) (key value : Text) : A α Unit := do
     let configKey := String.ofList ((keyT.drop 1).dropLast)
     let v := String.ofList valueT
     if configKey == "define" || configKey == "mode" then
-      if v == "all" || v == "default" then set { s with defineMode := .all }
-      else if v == "components" || v == "ingredients" then set { s with defineMode := .components }
-      else if v == "steps" then set { s with defineMode := .steps }
-      else if v == "text" then set { s with defineMode := .text }
+      if v == "all" || v == "default" then modify fun s => { s with defineMode := .all }
+      else if v == "components" || v == "ingredients" then modify fun s => { s with defineMode := .components }
+      else if v == "steps" then modify fun s => { s with defineMode := .steps }
+      else if v == "text" then modify fun s => { s with defineMode := .text }
       else aerr "config-invalid-value" [value.span, key.span]
     else if configKey == "duplicate" then
-      if v == "new" || v == "default" then set { s with duplicateMode := .new }
-      else if v == "reference" || v == "ref" then set { s with duplicateMode := .reference }
+      if v == "new" || v == "default" then modify fun s => { s with duplicateMode := .new }
+      else if v == "reference" || v == "ref" then modify fun s => { s with duplicateMode := .reference }
       else aerr "config-invalid-value" [value.span, key.span]
     else
       awarn "config-unknown-key" [key.span]
